@@ -260,6 +260,16 @@ func replay(path string) int {
 	if err != nil {
 		infra(err)
 	}
+	for rep := 1; r.Native && len(vs) == 0 && rep < 16; rep++ {
+		// recorded as not recurring on every execution: repeat
+		if obs, err = c.Runner.Exec(r.History); err != nil {
+			infra(err)
+		}
+		if vs, err = judge(c, r.History, obs); err != nil {
+			infra(err)
+		}
+		fmt.Printf("repetition %d of a natively nondeterministic finding: %d violation(s)\n", rep+1, len(vs))
+	}
 	for _, o := range obs {
 		fmt.Printf("op %d: argv=%q exit=%d crashed=%v faults=%v\n  stderr: %s\n", o.OpIndex, o.Argv, o.Exit, o.Crashed, o.FaultsFired, strings.ReplaceAll(strings.TrimSpace(o.Stderr), "\n", "\n          "))
 		var ps []string
